@@ -8,16 +8,16 @@ import Rscp.Gen.Leaves
 namespace Rscp.Tie.Builder
 
 /-- source of `rscp_CreateRequest` is unchanged -/
-theorem shape_rscp_CreateRequest : Rscp.Gen.Shape.rscp_CreateRequest = "6bd367e36d531b4dec42d11f018c36bc" := rfl
+theorem shape_rscp_CreateRequest : Rscp.Gen.Shape.rscp_CreateRequest = "d77448aee0166481fee9e932a858d09b" := rfl
 /-- source of `rscp_CreateRequests` is unchanged -/
-theorem shape_rscp_CreateRequests : Rscp.Gen.Shape.rscp_CreateRequests = "686e57bffdd5b773d0b4117709cfd970" := rfl
+theorem shape_rscp_CreateRequests : Rscp.Gen.Shape.rscp_CreateRequests = "e32bf5a72fdc8e711984491f241dfc6f" := rfl
 /-- source of `rscp_readRequestSlice` is unchanged -/
-theorem shape_rscp_readRequestSlice : Rscp.Gen.Shape.rscp_readRequestSlice = "7a1d051474a563bb58410d901a5d4ee1" := rfl
+theorem shape_rscp_readRequestSlice : Rscp.Gen.Shape.rscp_readRequestSlice = "885218cdd62e065e7485abbfb5c92c05" := rfl
 /-- source of `rscp_readRequestSliceReader` is unchanged -/
-theorem shape_rscp_readRequestSliceReader : Rscp.Gen.Shape.rscp_readRequestSliceReader = "0123d312a66c68376ae2bc8d168720a4" := rfl
+theorem shape_rscp_readRequestSliceReader : Rscp.Gen.Shape.rscp_readRequestSliceReader = "27fb82cc7eb89ab39ea12cf4b8c026c1" := rfl
 /-- source of `rscp_NewMessage` is unchanged -/
-theorem shape_rscp_NewMessage : Rscp.Gen.Shape.rscp_NewMessage = "7a161364dad537c98e072f42057544a8" := rfl
+theorem shape_rscp_NewMessage : Rscp.Gen.Shape.rscp_NewMessage = "097f4556681a4fde5d0340653d39e121" := rfl
 /-- source of `rscp_Tag_DataType` is unchanged -/
-theorem shape_rscp_Tag_DataType : Rscp.Gen.Shape.rscp_Tag_DataType = "e9dd0f02a82651b50e077d35aafbaba0" := rfl
+theorem shape_rscp_Tag_DataType : Rscp.Gen.Shape.rscp_Tag_DataType = "7f89d9391dd38f68a30d9a2d55766b01" := rfl
 
 end Rscp.Tie.Builder
